@@ -1274,7 +1274,13 @@ fn conv_function(
             vec![]
         };
 
-        Ok((args, body))
+        // What the body returned (a signal of the enclosing module, say)
+        // gives the result its clock domain.
+        let ret_domain = c
+            .find_path(&VarPath::new(get_return_str()))
+            .map(|(_, x)| x.clock_domain);
+
+        Ok((args, body, ret_domain))
     });
 
     context.pop_affiliation();
@@ -1282,7 +1288,11 @@ fn conv_function(
     context.pop_namespace();
     context.converting_funcs.pop();
 
-    let (args, body) = func?;
+    let (args, body, ret_domain) = func?;
+    let mut ret_type = ret_type;
+    if let Some(x) = ret_domain {
+        ret_type.clock_domain = x;
+    }
     let func = ir::Function {
         name,
         id,
